@@ -100,7 +100,7 @@ def v_dtype(t, tags, raw):
     if c == 10:
         return VL([VN(10), VN(s), VNL(t["adims"]), v_dtype(t["base"], tags, b"")])
     if c == 7:
-        return VL([VN(7), VN(s), VN(t["bits"] & 0xF)])
+        return VL([VN(7), VN(s), VN(t["bits"])])
     if c == 9:
         return VL([VN(9), VN(s), VN(1 if t["vlen"] == "string" else 0), v_dtype(t["base"], tags, raw[8:])])
     raise KeyError(c)
